@@ -328,18 +328,17 @@ impl Request {
             }
 
             if new_line_char_found && !current_string_is_empty {
-                let mut header = Header { name: "".to_string(), value: "".to_string() };
                 if !is_first_iteration {
-                    header = Request::parse_http_request_header_string(&string);
+                    let header = Request::parse_http_request_header_string(&string);
                     if header.name == Header::_CONTENT_LENGTH {
                         let boxed_content_length = header.value.parse();
                         if boxed_content_length.is_ok() {
                             _content_length = boxed_content_length.unwrap();
                         }
                     }
+                    request.headers.push(header);
                 }
 
-                request.headers.push(header);
                 iteration_number += 1;
             }
         }
